@@ -1,6 +1,7 @@
 #include "../../include/GMGPolar/gmgpolar.h"
 
 #include <chrono>
+#include <limits>
 
 void GMGPolar::solve()
 {
@@ -36,6 +37,8 @@ void GMGPolar::solve()
     /* Statistics and run-time switches describe this solve only: forget what an earlier solve() left behind. */
     residual_norms_.clear();
     exact_errors_.clear();
+    /* Not available until residual norms of at least one iteration have been computed. */
+    mean_residual_reduction_factor_ = std::numeric_limits<double>::quiet_NaN();
     if (extrapolation_ == ExtrapolationType::COMBINED) {
         full_grid_smoothing_ = true;
     }
@@ -191,8 +194,11 @@ void GMGPolar::solve()
         /* -------------------------------- */
         /* Compute the reduction factor rho */
         /* -------------------------------- */
-        mean_residual_reduction_factor_ =
-            std::pow(current_residual_norm / initial_residual_norm, 1.0 / number_of_iterations_);
+        /* Without a tolerance no residual norm is computed: the factor stays 'not available' (NaN). */
+        if (absolute_tolerance_.has_value() || relative_tolerance_.has_value()) {
+            mean_residual_reduction_factor_ =
+                std::pow(current_residual_norm / initial_residual_norm, 1.0 / number_of_iterations_);
+        }
 
         if (verbose_ > 0) {
             std::cout << "\nTotal Iterations: " << number_of_iterations_ << std::endl;
